@@ -1,9 +1,11 @@
 package main
 
 import (
+	"encoding/base64"
 	"errors"
 	"io"
 	"net"
+	"strings"
 	"sync/atomic"
 	"time"
 
@@ -110,10 +112,25 @@ type c15Res struct {
 
 const c15Watchdog = 20 * time.Second // hang detector only; a transfer takes microseconds
 
+// c15ViaProvider: the next c15In hands the keys over through Transfer.TsigProvider (set by c15Check; cases run on one goroutine)
+var c15ViaProvider bool
+
 // c15In runs the library's Transfer.In on a scripted connection and consumes the channel to completion.
 func c15In(q *dns.Msg, secrets map[string]string, seg int, respond func(written []byte) []byte) *c15Res {
 	sc := &c15Conn{respond: respond, seg: seg}
 	tr := &dns.Transfer{Conn: &dns.Conn{Conn: sc}, TsigSecret: secrets}
+	if c15ViaProvider && len(secrets) > 0 {
+		// every other configuration hands the same keys over through Transfer.TsigProvider (the HMAC computed by the
+		// reference model), beside a TsigSecret map that holds other secrets and must not be consulted
+		keys := map[string][]byte{}
+		decoy := map[string]string{}
+		for k, v := range secrets {
+			b, _ := base64.StdEncoding.DecodeString(v)
+			keys[strings.ToLower(k)] = b
+			decoy[k] = "ZGVjb3k="
+		}
+		tr.TsigProvider, tr.TsigSecret = &c11Provider{keys: keys}, decoy
+	}
 	res := &c15Res{}
 	ch, err := tr.In(q, "scripted.invalid:53")
 	if err != nil {
